@@ -181,7 +181,7 @@ func (r *Recorder) Binding(signer *Account, msg *didtypes.MsgBinding) TxResult {
 	auth := msg.AccountAuth
 	op := L(S("Binding"), Z(now), S(msg.Creator), S(msg.AccountId), S(msg.RootDocId), keysV(msg.Keys),
 		S(auth.AccountDid), S(auth.AccountEncryptedSeed), S(auth.SidEncryptedAccount),
-		S(msg.Proof.Did), ZU(msg.Proof.Timestamp),
+		S(msg.Proof.Did), ZU(msg.Proof.Timestamp), S(msg.Proof.Message),
 		OptS(oracleCosmosSigner(msg.AccountId, msg.Proof)), OptS(oracleEthSigner(msg.Proof)),
 		OptS(oracleCalcDoc(msg.Keys, msg.Proof.Timestamp)))
 	r.Step(ctx, "Binding", op, res.Class)
